@@ -55,11 +55,13 @@ type Result struct {
 	NFacts     int
 	PtrClosed  bool
 	CgClosed   bool
+	IqClosed   bool
 	BadRecords int
 	Fails      []Fail
 	FailCases  []int
 	OracleOut  []string
 	Probes     map[int]*Probe
+	ProbeDeref map[int]map[uint64]bool // probe id of a **T probe -> what the cell held (same address encoding)
 	ProbeAddrs map[int]map[uint64]bool // probe id -> (run number << 48 | address): addresses are comparable within one run only
 	// call events of the native runs: (function id, site id)
 	Events     map[[2]int]bool
@@ -68,14 +70,15 @@ type Result struct {
 	NativeRuns int
 	NativeNote []string
 	// filled by MissedAliases
-	PairsObserved int
-	AllocObserved int
-	AliasAgree    int
-	AliasDiffer   int
-	Samples       []any
-	Timing        map[string]float64
-	ssaProg       *ssa.Program
-	pkgs          []*packages.Package
+	IndirectObserved int
+	PairsObserved    int
+	AllocObserved    int
+	AliasAgree       int
+	AliasDiffer      int
+	Samples          []any
+	Timing           map[string]float64
+	ssaProg          *ssa.Program
+	pkgs             []*packages.Package
 }
 
 var goEnv = append(os.Environ(), "GOFLAGS=-mod=mod", "GOPROXY=off", "GOSUMDB=off", "GOTOOLCHAIN=local", "GOWORK=off")
@@ -123,7 +126,7 @@ func Run(prop, sub string, pp *gen.PtrProg, rep *lib.Report) *Result {
 // RunWith is Run with a chosen oracle and extra oracle input lines computed from the dump.
 func RunWith(prop, sub string, pp *gen.PtrProg, rep *lib.Report, oracle string, extra func(*Result) string) *Result {
 	res := &Result{Prop: prop, Prog: pp, FactsOf: map[int][]string{}, Probes: map[int]*Probe{},
-		ProbeAddrs: map[int]map[uint64]bool{}, Events: map[[2]int]bool{}, SiteInstr: map[int]ssa.CallInstruction{},
+		ProbeAddrs: map[int]map[uint64]bool{}, ProbeDeref: map[int]map[uint64]bool{}, Events: map[[2]int]bool{}, SiteInstr: map[int]ssa.CallInstruction{},
 		FidFn: map[int]*ssa.Function{}, Timing: map[string]float64{}}
 	t0 := time.Now()
 	lap := func(name string) {
@@ -242,8 +245,9 @@ func RunWith(prop, sub string, pp *gen.PtrProg, rep *lib.Report, oracle string, 
 	}
 	res.OracleOut = out
 	var p, c int
-	fmt.Sscanf(out[0], "closed ptr=%d cg=%d bad=%d", &p, &c, &res.BadRecords)
-	res.PtrClosed, res.CgClosed = p == 1, c == 1
+	iq := 1
+	fmt.Sscanf(out[0], "closed ptr=%d cg=%d bad=%d iq=%d", &p, &c, &res.BadRecords, &iq)
+	res.PtrClosed, res.CgClosed, res.IqClosed = p == 1, c == 1, iq == 1
 	seenCase := map[int]bool{}
 	for _, l := range out[1:] {
 		var f Fail
@@ -251,6 +255,8 @@ func RunWith(prop, sub string, pp *gen.PtrProg, rep *lib.Report, oracle string, 
 			f.Kind = "ptr"
 		} else if n, _ := fmt.Sscanf(l, "fail cg %d %d", &f.Fn, &f.Idx); n == 2 {
 			f.Kind = "cg"
+		} else if n, _ := fmt.Sscanf(l, "fail iq %d %d", &f.Fn, &f.Idx); n == 2 {
+			f.Kind = "iq"
 		} else if n, _ := fmt.Sscanf(l, "fail root %d", &f.Fn); n == 1 {
 			f.Kind = "root"
 		} else {
@@ -328,6 +334,19 @@ func (res *Result) native(bin string, bits, from, to int) {
 					res.ProbeAddrs[id] = map[uint64]bool{}
 				}
 				res.ProbeAddrs[id][a] = true
+			}
+		case "Q":
+			if len(f) == 3 {
+				id, _ := strconv.Atoi(f[1])
+				a, err := strconv.ParseUint(strings.TrimPrefix(f[2], "0x"), 16, 64)
+				if err != nil || a == 0 {
+					continue
+				}
+				a = a&(1<<48-1) | uint64(res.NativeRuns)<<48
+				if res.ProbeDeref[id] == nil {
+					res.ProbeDeref[id] = map[uint64]bool{}
+				}
+				res.ProbeDeref[id][a] = true
 			}
 		case "E":
 			if len(f) == 3 {
@@ -461,6 +480,50 @@ func MissedAliases(res *Result) []Missed {
 			}
 		}
 	}
+	// IndirectQueries: what a probed **T cell held is an object probed elsewhere as *T
+	ids := make([]int, 0, len(res.ProbeDeref))
+	for id := range res.ProbeDeref {
+		ids = append(ids, id)
+	}
+	sort.Ints(ids)
+	for _, id := range ids {
+		pp := res.Probes[id]
+		if pp == nil {
+			continue
+		}
+		ptrT, ok := pp.Val.Type().Underlying().(*types.Pointer)
+		if !ok {
+			continue
+		}
+		iq, hasIQ := pa.IndirectQueries[pp.Val]
+		as := make([]uint64, 0, len(res.ProbeDeref[id]))
+		for a := range res.ProbeDeref[id] {
+			as = append(as, a)
+		}
+		sort.Slice(as, func(i, j int) bool { return as[i] < as[j] })
+		for _, a := range as {
+			others := byAddr[a]
+			for k, oid := range others {
+				if k >= 6 {
+					break
+				}
+				po := res.Probes[oid]
+				if po == nil || !types.Identical(po.Val.Type(), ptrT.Elem()) || seenPair[[2]int{-id, oid}] {
+					continue
+				}
+				seenPair[[2]int{-id, oid}] = true
+				q, okq := pa.Queries[po.Val]
+				res.IndirectObserved++
+				if !(hasIQ && okq && iq.MayAlias(q)) {
+					missed = append(missed, Missed{
+						Key:   fmt.Sprintf("indirect:%s/%s", pp.Val.String(), po.Val.String()),
+						Short: fmt.Sprintf("the cell probed at %d held the object probed at %d, but IndirectQueries of the former does not alias the latter", id, oid),
+						Text:  fmt.Sprintf("address %#x: held by the cell of\n  %s\nobserved at\n  %s\nIndirectQueries(%s) present=%v does not intersect\n", a, res.describe(pp), res.describe(po), pp.Val.Name(), hasIQ),
+						Case:  CaseOf(pp.Fn)})
+				}
+			}
+		}
+	}
 	return missed
 }
 
@@ -473,6 +536,13 @@ func (res *Result) FailText(n int) []string {
 			break
 		}
 		s := fmt.Sprintf("%s rule", f.Kind)
+		if f.Kind == "iq" {
+			if f.Fn < len(res.Dump.Funcs) {
+				s += fmt.Sprintf(" for register %d of %s", f.Idx, res.Dump.Funcs[f.Fn].String())
+			}
+			out = append(out, s)
+			continue
+		}
 		if f.Fn < len(res.Dump.Funcs) {
 			s += " in " + res.Dump.Funcs[f.Fn].String()
 			if code := res.Dump.Code[f.Fn]; f.Idx < len(code) && code[f.Idx] != nil {
